@@ -114,7 +114,7 @@ pub fn scenarios(quick: bool) -> Vec<Scenario> {
     let names: Vec<&str> = if false {
         vec![]
     } else {
-        vec!["rgb-130x130-groups-tocrev", "rgb-130x130-groups-localtree", "rgb-300x200-groups-unequal-localtrees", "gray-70x40-squeeze-2pass", "rgb12-49x19-squeeze-hv", "anim-12x10-3kf", "anim-12x10-muladd-mul", "ref-then-blend-alpha16", "layers-chain-two-kf", "anim-4x4-six-frames", "rgba-9x7-ans-rct", "vardct-ycbcr-48x40-gab-epf", "vardct-ycbcr-40x24-noise", "vardct-420-40x24", "vardct-422-33x17-gab-epf", "rgba-24x20-patches", "rgba-24x20-patches-layer-under-patched-keyframe", "rgba-24x20-patched-layer-under-plain-keyframe", "rgba-up2-21x13", "vardct-ycbcr-40x24-up4-epf", "vardct-264x40-2groups-gab-epf", "vardct-520x24-3groups-420", "vardct-260x264-4groups", "vardct-lfframe-40x24", "vardct-lfframe-264x40-2groups-epf", "rgb-40x24-splines", "vardct-40x24-splines-noise", "vardct-512x128-dct128-2groups-gab-epf", "vardct-512x136-dct64x128-2groups", "vardct-512x256-dct256-2groups", "vardct-520x256-dct128x256-3groups", "vardct-300x72-dct64-2groups", "vardct-264x72-mixed-2groups-lfsmooth-gab-epf", "vardct-72x40-small-transforms-cfl-hfmul"]
+        vec!["rgb-130x130-groups-tocrev", "rgb-130x130-groups-localtree", "rgb-300x200-groups-unequal-localtrees", "gray-70x40-squeeze-2pass", "rgb12-49x19-squeeze-hv", "anim-12x10-3kf", "anim-12x10-muladd-mul", "ref-then-blend-alpha16", "layers-chain-two-kf", "anim-4x4-six-frames", "rgba-9x7-ans-rct", "vardct-ycbcr-48x40-gab-epf", "vardct-ycbcr-40x24-noise", "vardct-420-40x24", "vardct-422-33x17-gab-epf", "rgba-24x20-patches", "rgba-24x20-patches-layer-under-patched-keyframe", "rgba-24x20-patched-layer-under-plain-keyframe", "rgba-up2-21x13", "vardct-ycbcr-40x24-up4-epf", "vardct-264x40-2groups-gab-epf", "vardct-520x24-3groups-420", "vardct-260x264-4groups", "vardct-lfframe-40x24", "vardct-lfframe-264x40-2groups-epf", "rgb-40x24-splines", "vardct-40x24-splines-noise", "vardct-512x128-dct128-2groups-gab-epf", "vardct-512x136-dct64x128-2groups", "vardct-512x256-dct256-2groups", "vardct-520x256-dct128x256-3groups", "vardct-300x72-dct64-2groups", "vardct-264x72-mixed-2groups-lfsmooth-gab-epf", "vardct-72x40-small-transforms-cfl-hfmul", "vardct-2056x8-2lfgroups-gab-epf", "vardct-16x2056-2lfgroups-epf1-cfl"]
     };
     for n in names {
         v.push(Scenario { name: n.to_string(), bytes: get(n) });
@@ -189,6 +189,13 @@ pub fn main(args: &crate::Args) {
         outcomes: std::collections::BTreeSet<String>,
     }
     let refs: Vec<Vec<String>> = scs.iter().map(|s| render_all(&s.bytes, JxlThreadPool::none())).collect();
+    // repetition: fresh decoder instances (each with its own randomly seeded hash maps) must agree before any order is
+    // explored; a scenario that does not is reported and left out of the enumeration (its executions would diverge)
+    let unstable: Vec<bool> = par_map(&scs, n_threads(), |si, sc| (0..5).any(|_| render_all(&sc.bytes, JxlThreadPool::none()) != refs[si]));
+    for (sc, _) in scs.iter().zip(&unstable).filter(|(_, u)| **u) {
+        rep.violation(&format!("not-repeatable:{}", sc.name), &format!("rendering {} without a pool on fresh decoder instances gives different results from one run to the next", sc.name), &json!({"scenario": sc.name, "stream_hex": hex(&sc.bytes), "repeat": 6}));
+    }
+    let jobs: Vec<(usize, usize)> = jobs.into_iter().filter(|&(si, _)| !unstable[si]).collect();
     let outs = par_map(&jobs, n_threads(), |_, &(si, part)| {
         let sc = &scs[si];
         let reference = &refs[si];
@@ -275,7 +282,7 @@ pub fn main(args: &crate::Args) {
         // the blocked threads cannot be ended: write the evidence and leave
         rep.caps.push("free-running rayon runs stopped at the first render that did not return".into());
     }
-    rep.rule = format!("{} scenarios (multi-group / multi-pass / squeeze Modular frames, animations and layered images with reference chains, and multi-group streams with one corrupted section each) rendered through the sequential Verif pool: at every pool operation (scope task pick, for_each element pick, deferral of fire-and-forget reference renders, re-creation of per-worker scratch) the choice is owned by a tape; ALL tapes within {bound} deviations of FIFO order are executed, every keyframe rendered twice; oracle: each call's Ok/Err and sample bits identical to the pool-less render, and no frame's render is requested-and-waited-for from inside a pool job (the schedule-independent precondition of the work-stealing self-deadlock). Supporting, not exhaustive: {} free-running renders with real rayon pools of sizes {:?}.", scs.len(), rayon_runs, sizes);
+    rep.rule = format!("{} scenarios (multi-group / multi-pass / squeeze Modular frames, animations and layered images with reference chains, and multi-group streams with one corrupted section each) rendered through the sequential Verif pool: at every pool operation (scope task pick, for_each element pick, deferral of fire-and-forget reference renders, re-creation of per-worker scratch) the choice is owned by a tape; ALL tapes within {bound} deviations of FIFO order are executed, every keyframe rendered twice, after 6 renders on fresh decoder instances have agreed; oracle: each call's Ok/Err and sample bits identical to the pool-less render, and no frame's render is requested-and-waited-for from inside a pool job (the schedule-independent precondition of the work-stealing self-deadlock). Supporting, not exhaustive: {} free-running renders with real rayon pools of sizes {:?}.", scs.len(), rayon_runs, sizes);
     rep.sample(json!({"scenario": scs[0].name, "task_orders": per_scenario.get(&scs[0].name), "reference": refs[0]}));
     rep.sample(json!({"scenario": scs.last().unwrap().name, "reference": refs.last().unwrap()}));
     rep.extra.insert("task_order_executions".into(), json!(per_scenario));
@@ -297,6 +304,20 @@ fn replay(path: &str) -> ! {
     let v: serde_json::Value = serde_json::from_str(&s).unwrap();
     if v["family"] == "tsan" || v["family"] == "tsan-hang" {
         crate::tsan::replay("C07", path, &v);
+    }
+    if v.get("repeat").is_some() {
+        let bytes = crate::report::unhex(v["stream_hex"].as_str().unwrap());
+        let first = render_all(&bytes, JxlThreadPool::none());
+        for i in 0..12 {
+            let r = render_all(&bytes, JxlThreadPool::none());
+            if r != first {
+                println!("run 0: {first:?}\nrun {}: {r:?}", i + 1);
+                println!("VIOLATION property=C07 replay={path}\n  key=not-repeatable :: results differ between runs");
+                std::process::exit(1)
+            }
+        }
+        println!("replay: 13 runs agree");
+        std::process::exit(0)
     }
     let bytes = crate::report::unhex(v["stream_hex"].as_str().unwrap());
     let reference = render_all(&bytes, JxlThreadPool::none());
